@@ -537,6 +537,8 @@ def src_expr(e, lay, need_suffix=False, top=True):
         # (the grammar only chains + and -; everything else needs parentheses)
         def child(c, left):
             s = src_expr(c, lay, need_suffix, False)
+            # (`as` binds tighter than every binary operator: a cast may stand as an operand without parentheses)
+            if c[0] == "cast" and c[2][0] in ("var", "paren") and r.random() < 0.5: return s
             if c[0] in ("bin", "cast") or (c[0] == "un") or (c[0] == "lit" and c[2] < 0):
                 return "(" + s + ")"
             if not lay.plain and r.random() < 0.1: return "(" + s + ")"
@@ -546,6 +548,10 @@ def src_expr(e, lay, need_suffix=False, top=True):
         # a literal may stay naked only next to a plain variable of the same type
         ls = paren_if(l, src_expr(l, lay, True, False))
         rs = paren_if(rr, src_expr(rr, lay, not (rr[0] == "lit" and l[0] == "var"), False))
+        # `as` binds tighter than every binary operator: a cast of a variable may stand as an operand without parentheses
+        if e[1] in ("+", "-", "*", "/", "%"):
+            if rr[0] == "cast" and rr[2][0] == "var" and r.random() < 0.5: rs = src_expr(rr, lay, True, False)
+            if l[0] == "cast" and l[2][0] == "var" and r.random() < 0.5: ls = src_expr(l, lay, True, False)
         # leave out the parentheses the grammar makes redundant: + and - chain to the left over
         # * / % chains (which chain to the left too); one and the same bitwise operator chains
         MUL, ADD = ("*", "/", "%"), ("+", "-")
